@@ -7,7 +7,17 @@
 //! `to_serializable` -> `SerializableLockState::new(..shifted acquired_at_ms..)` -> `from_serializable`
 //! path, timeouts are `to*TICK + TICK/2` ms, so the few ms of real drift in a case can never flip an
 //! expiry decision.  A second small stream uses the untouched API (Duration::ZERO timeout + 3 ms sleeps).
-//! What cannot be controlled without a clock hook: the exact `elapsed == timeout` millisecond boundary.
+//! With the hook `tensor_chain::distributed_tx::verif_clock::set_now_ms` (/repo 654184dd) a third family
+//! of streams (`table.clock*`, `sched.*`, the directed coordinator scenarios) freezes the millisecond
+//! clock itself: timeouts are plain milliseconds, "advance d" moves the frozen clock by d ms, and the
+//! exact `elapsed == timeout` boundary of `KeyLock::is_expired` (`>`: not expired AT the boundary,
+//! expired one millisecond later) is compared with the model directly.
+//!
+//! Threads: `sched.*` runs real threads under `nverif::sched::run_threads`.  LockManager and the
+//! coordinator do not go through TensorStore, so there is no yield point INSIDE their operations; the
+//! harness yields between operations, which makes the stream a deterministic exploration of
+//! operation-level interleavings whose linearisation is replayed on the model.  Races inside an
+//! operation are left to the OS-thread hammers (`threads.*`).
 use nverif::*;
 use serde_json::json;
 use std::collections::{BTreeMap, BTreeSet, HashMap};
@@ -16,6 +26,7 @@ use std::sync::Arc;
 use std::time::{Duration, SystemTime, UNIX_EPOCH};
 use tensor_chain::deadlock::{DeadlockDetector, DeadlockDetectorConfig, VictimSelectionPolicy, WaitForGraph};
 use tensor_chain::consensus::{ConsensusConfig, ConsensusManager};
+use tensor_chain::distributed_tx::verif_clock;
 use tensor_chain::distributed_tx::{CoordinatorState, DistributedTxConfig, DistributedTxCoordinator, KeyLock, LockManager, PrepareRequest, PrepareVote, SerializableLockState};
 use tensor_chain::Transaction;
 use tensor_store::{ScalarValue, SparseVector, TensorData, TensorStore, TensorValue};
@@ -76,10 +87,27 @@ struct RealTable {
     lm: LockManager,
     vnow: u64,
     handles: Vec<u64>, // model handle i -> real handle
+    /// true: the clock hook is frozen at `vnow` ms and 1 tick = 1 ms exactly; false: virtual ticks of
+    /// 100 s realised through serialize/restore on the wall clock
+    hooked: bool,
+}
+/// frozen-clock base: far from 0 so that `acquired_at - 6` style injected images stay positive
+const HOOK_BASE: u64 = 100;
+impl Drop for RealTable {
+    fn drop(&mut self) {
+        if self.hooked {
+            verif_clock::set_now_ms(None);
+        }
+    }
 }
 impl RealTable {
     fn new(to_ticks: u64) -> Self {
-        RealTable { lm: LockManager::with_default_timeout(Duration::from_millis(to_ticks * TICK + TICK / 2)), vnow: 100, handles: vec![] }
+        RealTable { lm: LockManager::with_default_timeout(Duration::from_millis(to_ticks * TICK + TICK / 2)), vnow: 100, handles: vec![], hooked: false }
+    }
+    /// timeouts in plain milliseconds on the frozen clock
+    fn new_hooked(to_ms: u64) -> Self {
+        verif_clock::set_now_ms(Some(HOOK_BASE));
+        RealTable { lm: LockManager::with_default_timeout(Duration::from_millis(to_ms)), vnow: HOOK_BASE, handles: vec![], hooked: true }
     }
     fn h_to_model(&mut self, real: u64) -> u64 {
         if real >= INJ_BASE_REAL {
@@ -100,6 +128,18 @@ impl RealTable {
     }
     fn image(&mut self) -> Image {
         let st = self.lm.to_serializable();
+        if self.hooked {
+            let mut raw: Vec<(&String, &KeyLock)> = st.locks().iter().collect();
+            raw.sort_by_key(|(k, _)| kid(k));
+            let mut locks = Vec::new();
+            for (k, l) in raw {
+                let h = self.h_to_model(l.lock_handle);
+                locks.push(LockRow { k: kid(k), key: kid(&l.key), tx: l.tx_id, h, acq: l.acquired_at_ms as i128, to: l.timeout_ms });
+            }
+            let mut txl: Vec<(u64, Vec<u64>)> = st.tx_locks().iter().map(|(t, ks)| (*t, ks.iter().map(|k| kid(k)).collect())).collect();
+            txl.sort();
+            return Image { locks, txl, dto: st.default_timeout_ms() };
+        }
         let rn = now_ms() as i128;
         let mut locks: Vec<LockRow> = Vec::new();
         let mut raw: Vec<(&String, &KeyLock)> = st.locks().iter().collect();
@@ -117,6 +157,11 @@ impl RealTable {
         Image { locks, txl, dto: st.default_timeout_ms() / TICK }
     }
     fn advance(&mut self, d: u64) {
+        if self.hooked {
+            self.vnow += d;
+            verif_clock::set_now_ms(Some(self.vnow));
+            return;
+        }
         let st = self.lm.to_serializable();
         let mut locks = st.locks().clone();
         for l in locks.values_mut() {
@@ -133,6 +178,15 @@ impl RealTable {
         Ok(())
     }
     fn inject(&mut self, locks: &[LockRow], txl: &[(u64, Vec<u64>)], dto: u64) {
+        if self.hooked {
+            let mut m: HashMap<String, KeyLock> = HashMap::new();
+            for r in locks {
+                m.insert(kname(r.k), KeyLock { key: kname(r.key), tx_id: r.tx, lock_handle: self.h_to_real(r.h), acquired_at_ms: r.acq.max(0) as u64, timeout_ms: r.to });
+            }
+            let t: HashMap<u64, Vec<String>> = txl.iter().map(|(tx, ks)| (*tx, ks.iter().map(|k| kname(*k)).collect())).collect();
+            self.lm = LockManager::from_serializable(SerializableLockState::new(m, t, dto));
+            return;
+        }
         let rn = now_ms() as i128;
         let mut m: HashMap<String, KeyLock> = HashMap::new();
         for r in locks {
@@ -242,7 +296,12 @@ fn op_text(op: &Op) -> String {
 
 /// Runs one op sequence on the real LockManager and the model; returns true when everything agreed.
 fn run_table_case(m: &mut Model, rep: &mut Report, stream: &str, to: u64, ops: &[Op], record: bool) -> bool {
-    let mut real = RealTable::new(to);
+    run_table_case_on(m, rep, stream, to, ops, record, false)
+}
+
+/// `hooked`: drive the real LockManager on the frozen millisecond clock (timeout `to` ms, `Adv(d)` = d ms)
+fn run_table_case_on(m: &mut Model, rep: &mut Report, stream: &str, to: u64, ops: &[Op], record: bool, hooked: bool) -> bool {
+    let mut real = if hooked { RealTable::new_hooked(to) } else { RealTable::new(to) };
     let mut agreed = m.ask(&format!("reset {to} 0")) == "ok";
     let mut ghost: Vec<Grant> = Vec::new();
     let mut tainted = false; // an inconsistent image was injected: invariants-based oracles are off
@@ -255,6 +314,14 @@ fn run_table_case(m: &mut Model, rep: &mut Report, stream: &str, to: u64, ops: &
         let (imp, line): (String, String) = match op {
             Op::Lock(tx, ks) => {
                 let keys: Vec<String> = ks.iter().map(|k| kname(*k)).collect();
+                if hooked && record {
+                    for r in before.locks.iter().filter(|r| ks.contains(&r.k) && r.tx != *tx) {
+                        let el = now as i128 - r.acq;
+                        if el == r.to as i128 { rep.hit("clock.lock.elapsed_eq_timeout"); }
+                        if el == r.to as i128 + 1 { rep.hit("clock.lock.elapsed_eq_timeout_plus_1"); }
+                        if el + 1 == r.to as i128 { rep.hit("clock.lock.elapsed_eq_timeout_minus_1"); }
+                    }
+                }
                 let res = real.lm.try_lock(*tx, &keys);
                 let line = format!("lock {now} {tx} {}", commas(ks));
                 match res {
@@ -411,6 +478,238 @@ fn run_table_case(m: &mut Model, rep: &mut Report, stream: &str, to: u64, ops: &
         rep.case(stream, if grants >= 1 && state_changes >= 1 { Some(&key) } else { None });
     }
     agreed
+}
+
+
+// ------------------------------------------------------------------ frozen clock: the exact expiry boundary
+
+/// Directed: a lock acquired at t0 with timeout T, observed at t0+T-1, t0+T, t0+T+1 through every
+/// operation whose answer depends on expiry (is_locked, lock_holder, try_lock by another transaction,
+/// try_lock_with_wait_tracking, cleanup_expired, cleanup_expired_with_wait_cleanup), real vs model.
+fn clock_boundary(m: &mut Model, rep: &mut Report) {
+    let stream = "table.clock.boundary";
+    for to in [0u64, 1, 2, 5, 40, 30_000] {
+        for delta in [-1i64, 0, 1] {
+            if to == 0 && delta < 0 { continue; }
+            for probe in ["query", "lock", "lockw", "clean", "cleanw"] {
+                let mut real = RealTable::new_hooked(to);
+                let g = WaitForGraph::new();
+                if m.ask(&format!("reset {to} 0")) != "ok" { rep.disagree(stream, json!({}), "ok", "reset refused"); return; }
+                let t0 = real.vnow;
+                let h = real.lm.try_lock(1, &[kname(7)]);
+                let imp0 = match h { Ok(h) => format!("ok {}", real.h_to_model(h)), Err(c) => format!("conflict {c}") };
+                let img0 = real.image();
+                let mo0 = m.ask(&format!("lock {t0} 1 7"));
+                if !rep.compare(stream, || json!({"timeout_ms": to, "step": "grant"}), &format!("{imp0} | {}", img0.show()), &mo0) { return; }
+                let at = (t0 + to) as i64 + delta;
+                real.advance((at as u64) - t0);
+                let now = real.vnow;
+                let expect_expired = delta > 0; // `elapsed > timeout`
+                let (imp, line) = match probe {
+                    "query" => {
+                        let l = real.lm.is_locked(&kname(7));
+                        let hd = real.lm.lock_holder(&kname(7));
+                        if l == expect_expired || hd.is_some() == expect_expired {
+                            rep.violation("KeyLock.is_expired/boundary", "is_locked / lock_holder disagree with `elapsed > timeout`", json!({"timeout_ms": to, "elapsed_minus_timeout": delta}));
+                        }
+                        (format!("locked={} holder={}", l, hd.map_or("-".to_string(), |x| x.to_string())), format!("q {now} 7"))
+                    }
+                    "lock" => {
+                        let r = real.lm.try_lock(2, &[kname(7), kname(8)]);
+                        if r.is_ok() != expect_expired {
+                            rep.violation("KeyLock.is_expired/boundary", "try_lock by another transaction disagrees with `elapsed > timeout`", json!({"timeout_ms": to, "elapsed_minus_timeout": delta}));
+                        }
+                        let a = match r { Ok(h) => format!("ok {}", real.h_to_model(h)), Err(c) => format!("conflict {c}") };
+                        (format!("{a} | {}", real.image().show()), format!("lock {now} 2 7,8"))
+                    }
+                    "lockw" => {
+                        let r = real.lm.try_lock_with_wait_tracking(2, &[kname(7)], &g, Some(3));
+                        let a = match r { Ok(h) => format!("ok {}", real.h_to_model(h)), Err(w) => format!("conflict {}", commas(&w.conflicting_keys.iter().map(|k| kid(k)).collect::<Vec<_>>())) };
+                        let Some(v) = view(&g) else { return; };
+                        (format!("{a} | {} | {}", real.image().show(), graph_img(&v, 0)), format!("lockw {now} {now} 2 7 3"))
+                    }
+                    "clean" => {
+                        let n = real.lm.cleanup_expired();
+                        if (n == 1) != expect_expired {
+                            rep.violation("KeyLock.is_expired/boundary", "cleanup_expired disagrees with `elapsed > timeout`", json!({"timeout_ms": to, "elapsed_minus_timeout": delta}));
+                        }
+                        (format!("{n} | {}", real.image().show()), format!("clean {now}"))
+                    }
+                    _ => {
+                        let n = real.lm.cleanup_expired_with_wait_cleanup(&g);
+                        let Some(v) = view(&g) else { return; };
+                        (format!("{n} | {} | {}", real.image().show(), graph_img(&v, 0)), format!("cleanw {now}"))
+                    }
+                };
+                let mo = m.ask(&line);
+                rep.hit(&format!("clock.boundary.elapsed_minus_timeout.{}", match delta { -1 => "minus1", 0 => "zero", _ => "plus1" }));
+                rep.hit(&format!("clock.boundary.probe.{probe}"));
+                rep.case(stream, Some(&format!("{to}/{delta}/{probe}")));
+                rep.compare(stream, || json!({"timeout_ms": to, "elapsed_minus_timeout": delta, "probe": probe, "line": line}), &imp, &mo);
+            }
+        }
+    }
+    // wait_started is the frozen clock too: add_wait twice at different times keeps the first
+    {
+        let real = RealTable::new_hooked(5);
+        let g = WaitForGraph::new();
+        g.add_wait(1, 2, None);
+        verif_clock::set_now_ms(Some(real.vnow + 7));
+        g.add_wait(1, 3, Some(1));
+        let ws = g.get_wait_start(1);
+        rep.case(stream, Some("wait_started"));
+        if ws != Some(real.vnow) {
+            rep.violation("WaitForGraph.add_wait/wait_started_overwritten", "second add_wait of a waiting transaction changed its wait start", json!({"got": ws, "want": real.vnow}));
+        }
+        // cleanup_stale_edges uses the same `>` comparison
+        verif_clock::set_now_ms(Some(real.vnow + 10));
+        let n_eq = g.cleanup_stale_edges(10);
+        verif_clock::set_now_ms(Some(real.vnow + 11));
+        let n_gt = g.cleanup_stale_edges(10);
+        rep.observe(json!({"cleanup_stale_edges": "ttl 10 ms: removed at elapsed==ttl / elapsed==ttl+1", "removed": [n_eq, n_gt]}));
+        rep.hit(&format!("clock.stale_edges.eq_{n_eq}.gt_{n_gt}"));
+    }
+}
+
+// ------------------------------------------------------------------ deterministic scheduler on real threads
+
+#[derive(Clone, Debug)]
+enum SOp {
+    Lock(u64, Vec<u64>),
+    Rel(u64),
+    RelH(usize), // i-th handle this thread was granted (if any)
+    Clean,
+    Query(u64),
+    Tick, // advance the frozen clock by 1 ms (an op of its own, scheduled like the others)
+}
+
+/// 2..4 real threads run scripts of LockManager operations under `nverif::sched::run_threads`; the
+/// harness yields before every operation (site `lm.op`).  Outcome: (1) the executed trace contains no
+/// yield site other than the harness's own — no operation of LockManager yields, each is atomic for
+/// the scheduler; (2) the linearisation chosen by the scheduler, replayed on the Lean model, gives
+/// the same result for every operation and the same final table.
+fn sched_lockmanager_case(m: &mut Model, rep: &mut Report, r: &mut Rng) {
+    let stream = "sched.lockmanager";
+    let to = *r.pick(&[0u64, 1, 2, 3, 50]);
+    let nthreads = 2 + r.below(3) as usize;
+    let nkeys = 2 + r.below(3);
+    let mut scripts: Vec<Vec<SOp>> = Vec::new();
+    for t in 0..nthreads {
+        let n = 2 + r.below(5) as usize;
+        let mut sc = Vec::new();
+        let mut granted = 0usize;
+        for _ in 0..n {
+            sc.push(match r.below(100) {
+                0..=49 => { granted += 1; SOp::Lock(10 * (t as u64 + 1) + r.below(2), gen_keys(r, nkeys)) }
+                50..=61 => SOp::Rel(10 * (t as u64 + 1) + r.below(2)),
+                62..=73 => SOp::RelH(if granted > 0 { r.below(granted as u64) as usize } else { 0 }),
+                74..=81 => SOp::Clean,
+                82..=89 => SOp::Query(r.below(nkeys)),
+                _ => SOp::Tick,
+            });
+        }
+        scripts.push(sc);
+    }
+    let base = HOOK_BASE;
+    verif_clock::set_now_ms(Some(base));
+    let lm = Arc::new(LockManager::with_default_timeout(Duration::from_millis(to)));
+    // log of (thread, op index, op, clock at the op, result text)
+    let log: Arc<std::sync::Mutex<Vec<(usize, SOp, u64, String)>>> = Arc::new(std::sync::Mutex::new(Vec::new()));
+    let clock = Arc::new(AtomicU64::new(base));
+    let tasks: Vec<Box<dyn FnOnce() + Send>> = scripts
+        .iter()
+        .cloned()
+        .enumerate()
+        .map(|(t, sc)| {
+            let (lm, log, clock) = (lm.clone(), log.clone(), clock.clone());
+            Box::new(move || {
+                let mut mine: Vec<u64> = Vec::new();
+                for op in sc {
+                    tensor_store::verif::yield_point("lm.op", "");
+                    let now = clock.load(Ordering::SeqCst);
+                    let res = match &op {
+                        SOp::Lock(tx, ks) => {
+                            let keys: Vec<String> = ks.iter().map(|k| kname(*k)).collect();
+                            match lm.try_lock(*tx, &keys) {
+                                Ok(h) => { mine.push(h); format!("ok {h}") }
+                                Err(c) => format!("conflict {c}"),
+                            }
+                        }
+                        SOp::Rel(tx) => { lm.release(*tx); "ok".into() }
+                        SOp::RelH(i) => match mine.get(*i) {
+                            Some(h) => { lm.release_by_handle(*h); format!("relh {h}") }
+                            None => "skip".into(),
+                        },
+                        SOp::Clean => lm.cleanup_expired().to_string(),
+                        SOp::Query(k) => format!("locked={} holder={}", lm.is_locked(&kname(*k)), lm.lock_holder(&kname(*k)).map_or("-".to_string(), |x| x.to_string())),
+                        SOp::Tick => { let n = clock.fetch_add(1, Ordering::SeqCst) + 1; verif_clock::set_now_ms(Some(n)); "ok".into() }
+                    };
+                    log.lock().unwrap().push((t, op, now, res));
+                }
+            }) as Box<dyn FnOnce() + Send>
+        })
+        .collect();
+    let mut sr = r.fork("schedule");
+    let trace = nverif::sched::run_threads(tasks, move |_, parked| sr.below(parked.len() as u64) as usize);
+    // (1) yield sites: only the harness's own
+    let foreign: Vec<&str> = trace.iter().map(|s| s.site).filter(|s| *s != "lm.op" && *s != "thread.start").collect();
+    rep.hit_n("sched.lm.steps", trace.len() as u64);
+    if !foreign.is_empty() {
+        rep.hit("sched.lm.yield_inside_operation");
+        rep.observe(json!({"lockmanager_operation_yielded_at": foreign}));
+    } else {
+        rep.hit("sched.lm.no_yield_inside_operations");
+    }
+    if trace.iter().any(|s| !s.blocked.is_empty()) { rep.hit("sched.lm.blocked_runner_seen"); }
+    let switches = trace.windows(2).filter(|w| w[0].thread != w[1].thread).count();
+    rep.hit(&format!("sched.lm.context_switches.{}", switches.min(9)));
+    // (2) replay the linearisation on the model
+    let log = log.lock().unwrap().clone();
+    let order: Vec<String> = log.iter().map(|(t, op, _, _)| format!("T{t}:{op:?}")).collect();
+    if m.ask(&format!("reset {to} 0")) != "ok" { return; }
+    let mut handles: Vec<u64> = Vec::new(); // model handle i -> real handle
+    let mut grants = 0;
+    for (i, (t, op, now, res)) in log.iter().enumerate() {
+        let (line, imp): (String, String) = match op {
+            SOp::Lock(tx, ks) => {
+                let imp = if let Some(h) = res.strip_prefix("ok ") {
+                    let h: u64 = h.parse().unwrap_or(0);
+                    handles.push(h);
+                    grants += 1;
+                    format!("ok {}", handles.len() - 1)
+                } else { res.clone() };
+                (format!("lock {now} {tx} {}", commas(ks)), imp)
+            }
+            SOp::Rel(tx) => (format!("rel {tx}"), "ok".into()),
+            SOp::RelH(_) => match res.strip_prefix("relh ") {
+                Some(h) => {
+                    let h: u64 = h.parse().unwrap_or(0);
+                    let hm = handles.iter().position(|x| *x == h).map_or(3_000_000, |p| p as u64);
+                    (format!("relh {hm}"), "ok".into())
+                }
+                None => continue,
+            },
+            SOp::Clean => (format!("clean {now}"), res.clone()),
+            SOp::Query(k) => (format!("q {now} {k}"), res.clone()),
+            SOp::Tick => continue,
+        };
+        let mo = m.ask(&line);
+        let mo_res = mo.split(" | ").next().unwrap_or("").to_string();
+        rep.hit(&format!("sched.lm.op.{}", line.split(' ').next().unwrap_or("")));
+        if !rep.compare(stream, || json!({"linearisation": order, "step": i, "thread": t, "timeout_ms": to}), &imp, &mo_res) {
+            verif_clock::set_now_ms(None);
+            return;
+        }
+    }
+    // final table
+    let mut rt = RealTable { lm: LockManager::from_serializable(lm.to_serializable()), vnow: clock.load(Ordering::SeqCst), handles, hooked: true };
+    let img = rt.image().show();
+    let mo = m.ask("sr");
+    let mo_img = mo.split(" | ").nth(1).unwrap_or("").to_string();
+    rep.compare(stream, || json!({"linearisation": order, "step": "final image", "timeout_ms": to}), &img, &mo_img);
+    drop(rt); // resets the hook
+    let key = order.join(";");
+    rep.case(stream, if grants >= 1 && switches >= 2 { Some(&key) } else { None });
 }
 
 // ------------------------------------------------------------------ wait-for graph
@@ -794,41 +1093,47 @@ fn wait_variant_case(m: &mut Model, rep: &mut Report, r: &mut Rng) {
                 }
             }
             55..=74 => {
-                // the transaction ends (commit/abort/timeout): the coordinator releases each of its handles
+                // the transaction ends (commit/abort/timeout): what every end-of-transaction site of the
+                // coordinator does since /repo db804a9a — release each recorded handle with wait cleanup,
+                // then remove the transaction from the wait-for graph unconditionally (model op `endtx`)
                 let tx = *r.pick(&live);
                 ended.insert(tx);
                 rep.hit("tg.end_tx");
                 let hs = handles_of.get(&tx).cloned().unwrap_or_default();
                 if hs.is_empty() { rep.hit("tg.end_tx.no_handle"); }
-                let mut last = None;
+                let before_view = view(&g);
                 for h in &hs {
                     real.lm.release_by_handle_with_wait_cleanup(real.h_to_real(*h), &g);
-                    let img = real.image();
-                    let Some(v) = view(&g) else { return; };
-                    let line = format!("relhw {h}");
-                    trace.push(line.clone());
-                    let imp = format!("ok | {} | {}", img.show(), graph_img(&v, base));
-                    let mo = m.ask(&line);
-                    if !rep.compare(stream, || json!({"trace": trace}), &imp, &mo) { return; }
-                    last = Some(());
                 }
-                let _ = last;
-                // oracle (the property): an ended transaction holds nothing and is absent from the wait graph
+                // what the PRE-FIX sequence would have left behind at this point (counted; the old
+                // sequence is `endtxold` in the model, compared in `old_sequence_regression`)
+                if let Some(v) = view(&g) {
+                    if v.edges.iter().any(|(k, vs)| (*k == tx && !vs.is_empty()) || vs.contains(&tx)) {
+                        rep.hit("tg.end_tx.handle_loop_alone_leaves_tx_in_graph");
+                    }
+                }
+                g.remove_transaction(tx);
+                let line = format!("endtx {tx} {}", commas(&hs));
+                trace.push(line.clone());
                 let img = real.image();
                 let Some(v) = view(&g) else { return; };
-                if img.locks.iter().any(|l| l.tx == tx && handles_of.get(&tx).map_or(false, |hs| hs.contains(&l.h))) {
-                    rep.violation("LockManager.release_by_handle_with_wait_cleanup/locks_remain", "ended transaction still holds a lock", json!({"tx": tx, "trace": trace}));
+                let imp = format!("ok | {} | {}", img.show(), graph_img(&v, base));
+                let mo = m.ask(&line);
+                if !rep.compare(stream, || json!({"trace": trace}), &imp, &mo) { return; }
+                // oracle (the property): an ended transaction holds nothing under its handles and is absent
+                // from the wait graph, on both sides and in both indexes
+                if img.locks.iter().any(|l| hs.contains(&l.h)) {
+                    rep.violation("LockManager.release_by_handle_with_wait_cleanup/locks_remain", "a lock carrying a released handle of the ended transaction remains", json!({"tx": tx, "trace": trace}));
                 }
-                let in_graph = v.edges.iter().any(|(k, vs)| (*k == tx && !vs.is_empty()) || vs.contains(&tx)) || v.reverse.iter().any(|(k, vs)| (*k == tx && !vs.is_empty()) || vs.contains(&tx));
+                let in_graph = v.edges.iter().any(|(k, vs)| *k == tx || vs.contains(&tx)) || v.reverse.iter().any(|(k, vs)| *k == tx || vs.contains(&tx))
+                    || v.ws.iter().any(|x| x.0 == tx) || v.pr.iter().any(|x| x.0 == tx);
                 if in_graph {
-                    // At LockManager level "the transaction ended" is the harness's imitation of what the
-                    // coordinator does (release every Yes-vote handle with wait cleanup); the property-level
-                    // verdict is taken on the real coordinator in the `coord` stream. Here: count + observe.
-                    let kind = if hs.is_empty() { "ended_waiter_without_handle_stays_in_wait_graph" } else { "ended_tx_stays_in_wait_graph" };
-                    rep.hit(&format!("observe.lockmanager.{kind}"));
-                    if rep.observations.len() < 4 {
-                        rep.observe(json!({"what": "release_by_handle_with_wait_cleanup cleans the wait graph only when it still finds a lock carrying the handle", "kind": kind, "tx": tx, "handles": hs, "trace": trace, "graph": graph_img(&v, base)}));
-                    }
+                    rep.violation("WaitForGraph.remove_transaction/ended_tx_stays_in_wait_graph",
+                        "after the end-of-transaction sequence (handle loop + remove_transaction) the transaction still appears in the wait-for graph",
+                        json!({"tx": tx, "handles": hs, "trace": trace, "graph": graph_img(&v, base)}));
+                }
+                if let Some(bv) = before_view {
+                    if bv.edges.iter().any(|(k, vs)| *k == tx || vs.contains(&tx)) { rep.hit("tg.end_tx.was_in_graph"); nontrivial = true; }
                 }
                 continue;
             }
@@ -853,6 +1158,159 @@ fn wait_variant_case(m: &mut Model, rep: &mut Report, r: &mut Rng) {
     }
     let key = trace.join(";");
     rep.case(stream, if nontrivial { Some(&key) } else { None });
+}
+
+/// The PRE-FIX end-of-transaction sequence (handle loop only) replayed on the real LockManager +
+/// WaitForGraph primitives (which the fix did not touch) against the model op `endtxold`: both leave the
+/// ended transaction in the graph on the two witness inputs of `ended_tx_absent_from_graph_witness`; the
+/// current sequence (`endtx`) removes it.  Frozen clock, so the expiry take-over is exact.
+fn old_sequence_regression(m: &mut Model, rep: &mut Report) {
+    let stream = "table+graph.old_sequence";
+    for scenario in ["waiter_without_handle", "holder_taken_over"] {
+        for fixed in [false, true] {
+            let mut real = RealTable::new_hooked(3);
+            let g = WaitForGraph::new();
+            if m.ask("reset 3 0") != "ok" { return; }
+            let mut script: Vec<String> = Vec::new();
+            let lockw = |real: &mut RealTable, m: &mut Model, rep: &mut Report, tx: u64, script: &mut Vec<String>| -> bool {
+                let now = real.vnow;
+                let res = real.lm.try_lock_with_wait_tracking(tx, &[kname(7)], &g, None);
+                let a = match res { Ok(h) => format!("ok {}", real.h_to_model(h)), Err(w) => format!("conflict {}", commas(&w.conflicting_keys.iter().map(|k| kid(k)).collect::<Vec<_>>())) };
+                let Some(v) = view(&g) else { return false; };
+                let line = format!("lockw {now} {now} {tx} 7 -");
+                script.push(line.clone());
+                let mo = m.ask(&line);
+                rep.compare(stream, || json!({"script": script}), &format!("{a} | {} | {}", real.image().show(), graph_img(&v, 0)), &mo)
+            };
+            let (ended, handles): (u64, Vec<u64>) = if scenario == "waiter_without_handle" {
+                if !lockw(&mut real, m, rep, 1, &mut script) || !lockw(&mut real, m, rep, 2, &mut script) { return; }
+                (2, vec![])
+            } else {
+                if !lockw(&mut real, m, rep, 1, &mut script) || !lockw(&mut real, m, rep, 3, &mut script) { return; }
+                real.advance(10);
+                if !lockw(&mut real, m, rep, 2, &mut script) { return; }
+                (1, vec![0])
+            };
+            for h in &handles {
+                real.lm.release_by_handle_with_wait_cleanup(real.h_to_real(*h), &g);
+            }
+            if fixed { g.remove_transaction(ended); }
+            let line = format!("{} {ended} {}", if fixed { "endtx" } else { "endtxold" }, commas(&handles));
+            script.push(line.clone());
+            let Some(v) = view(&g) else { return; };
+            let mo = m.ask(&line);
+            rep.case(stream, Some(&format!("{scenario}/{fixed}")));
+            rep.compare(stream, || json!({"script": script}), &format!("ok | {} | {}", real.image().show(), graph_img(&v, 0)), &mo);
+            let left = v.edges.iter().any(|(k, vs)| *k == ended || vs.contains(&ended));
+            rep.hit(&format!("tg.old_sequence.{scenario}.{}.{}", if fixed { "current" } else { "prefix" }, if left { "tx_left_in_graph" } else { "tx_absent" }));
+            if fixed && left {
+                rep.violation("WaitForGraph.remove_transaction/ended_tx_stays_in_wait_graph", "directed: the current end-of-transaction sequence left the transaction in the graph", json!({"script": script}));
+            }
+        }
+    }
+}
+
+/// WaitForGraph operations are NOT single critical sections (edges / reverse_edges / wait_started /
+/// priorities are four RwLocks taken one after the other).  OS threads run add_wait / remove_transaction /
+/// remove_wait on one graph; at quiescence the reverse index is compared with the transpose of the edges.
+/// In the coordinator every add_wait runs inside the lock-table critical section and a transaction's own
+/// operations are ordered, which this free-for-all does not respect: divergences found here are reported
+/// as observations (outside the property's quantifier), with their count in the distribution.
+fn graph_thread_hammer(rep: &mut Report, seed_rng: &Rng, threads: usize, rounds: usize) {
+    let mut diverged = 0u64;
+    let mut first: Option<serde_json::Value> = None;
+    for round in 0..rounds {
+        let g = Arc::new(WaitForGraph::new());
+        let mut hs = Vec::new();
+        for t in 0..threads {
+            let g = g.clone();
+            let mut r = seed_rng.fork(&format!("g{round}.{t}"));
+            hs.push(std::thread::spawn(move || {
+                for _ in 0..3000 {
+                    let (a, b) = (1 + r.below(3), 1 + r.below(3));
+                    match r.below(10) {
+                        0..=4 => g.add_wait(a, b, None),
+                        5..=7 => g.remove_transaction(a),
+                        _ => g.remove_wait(a, b),
+                    }
+                }
+            }));
+        }
+        for h in hs { let _ = h.join(); }
+        let Some(v) = view(&g) else { continue; };
+        let fwd: BTreeSet<(u64, u64)> = v.edges.iter().flat_map(|(k, vs)| vs.iter().map(move |x| (*k, *x))).collect();
+        let rev: BTreeSet<(u64, u64)> = v.reverse.iter().flat_map(|(k, vs)| vs.iter().map(move |x| (*x, *k))).collect();
+        rep.case("threads.graph_hammer", None);
+        if fwd != rev {
+            diverged += 1;
+            if first.is_none() {
+                first = Some(json!({"threads": threads, "round": round, "edges_not_in_reverse": fwd.difference(&rev).collect::<Vec<_>>(), "reverse_not_in_edges": rev.difference(&fwd).collect::<Vec<_>>()}));
+            }
+        }
+    }
+    rep.hit_n("threads.graph_hammer.rounds", rounds as u64);
+    rep.hit_n("threads.graph_hammer.reverse_index_diverged_at_quiescence", diverged);
+    if let Some(f) = first {
+        rep.observe(json!({"what": "unordered concurrent add_wait/remove_transaction/remove_wait on one WaitForGraph (not the coordinator's usage): reverse_edges != transpose(edges) at quiescence", "rounds_diverged": diverged, "of": rounds, "first": f}));
+    }
+}
+
+/// Two threads released by a spin barrier run exactly one graph operation each from a known state, many
+/// rounds per pair: the narrowest races of the non-atomic WaitForGraph operations.  Outcome classes per
+/// pair are counted; a reverse index that is not the transpose of the edges AFTER both operations returned
+/// is something no sequential order of the two operations can produce (theorem
+/// wait_graph_transpose_invariant) — reported as an observation: the coordinator never issues these pairs
+/// concurrently (add_wait only inside the lock-table critical section; a transaction's own calls ordered).
+fn graph_pair_race(rep: &mut Report, rounds: usize) {
+    use std::sync::atomic::AtomicBool;
+    type GOp = fn(&WaitForGraph);
+    let pairs: [(&str, GOp, GOp, GOp); 4] = [
+        ("add_wait(1,2)|remove_wait(1,2)", |_| {}, |g| g.add_wait(1, 2, None), |g| g.remove_wait(1, 2)),
+        ("add_wait(1,2)|remove_transaction(1)", |_| {}, |g| g.add_wait(1, 2, None), |g| g.remove_transaction(1)),
+        ("add_wait(1,2)|remove_transaction(2)", |_| {}, |g| g.add_wait(1, 2, None), |g| g.remove_transaction(2)),
+        ("remove_transaction(1)|remove_transaction(2) from 1->2,3->1,3->2", |g| { g.add_wait(1, 2, None); g.add_wait(3, 1, None); g.add_wait(3, 2, None); }, |g| g.remove_transaction(1), |g| g.remove_transaction(2)),
+    ];
+    for (name, setup, op_a, op_b) in pairs {
+        let g = Arc::new(WaitForGraph::new());
+        let gen = Arc::new(AtomicUsize::new(0));
+        let done = Arc::new(AtomicUsize::new(0));
+        let stop = Arc::new(AtomicBool::new(false));
+        let mut hs = Vec::new();
+        for op in [op_a, op_b] {
+            let (g, gen, done, stop) = (g.clone(), gen.clone(), done.clone(), stop.clone());
+            hs.push(std::thread::spawn(move || {
+                let mut seen = 0;
+                loop {
+                    while gen.load(Ordering::Acquire) == seen {
+                        if stop.load(Ordering::Acquire) { return; }
+                        std::hint::spin_loop();
+                    }
+                    seen += 1;
+                    op(&g);
+                    done.fetch_add(1, Ordering::AcqRel);
+                }
+            }));
+        }
+        let mut outcomes: BTreeMap<String, u64> = BTreeMap::new();
+        let mut diverged = 0u64;
+        for round in 0..rounds {
+            g.clear();
+            setup(&g);
+            gen.fetch_add(1, Ordering::AcqRel);
+            while done.load(Ordering::Acquire) < 2 * (round + 1) { std::hint::spin_loop(); }
+            let Some(v) = view(&g) else { continue; };
+            let fwd: BTreeSet<(u64, u64)> = v.edges.iter().flat_map(|(k, vs)| vs.iter().map(move |x| (*k, *x))).collect();
+            let rev: BTreeSet<(u64, u64)> = v.reverse.iter().flat_map(|(k, vs)| vs.iter().map(move |x| (*x, *k))).collect();
+            if fwd != rev { diverged += 1; }
+            *outcomes.entry(format!("edges{:?} reverse{:?}", fwd, rev)).or_insert(0) += 1;
+        }
+        stop.store(true, Ordering::Release);
+        for h in hs { let _ = h.join(); }
+        rep.case("threads.graph_pair_race", None);
+        rep.hit_n("threads.graph_pair_race.rounds", rounds as u64);
+        rep.hit_n("threads.graph_pair_race.reverse_index_diverged", diverged);
+        rep.observe(json!({"graph_pair_race": name, "rounds": rounds, "final_states": outcomes, "transpose_broken_after_both_returned": diverged}));
+    }
 }
 
 // ------------------------------------------------------------------ real threads + exclusivity monitor (oracle only)
@@ -937,7 +1395,8 @@ fn in_wait_graph(c: &DistributedTxCoordinator, tx: u64, universe: &[u64]) -> boo
 /// no lock and must not appear in the coordinator's wait-for graph (property C12, second sentence).
 fn coordinator_scenarios(rep: &mut Report, r: &mut Rng, random_cases: u64) {
     let stream = "coord.end_of_tx";
-    // --- A: a prepare refused with a lock conflict registers the waiter; the abort that follows never removes it
+    // --- A (regression of db804a9a, first form): a prepare refused with a lock conflict registers the waiter;
+    //     the abort that follows has no handle to release and must still remove it
     {
         let c = DistributedTxCoordinator::with_consensus(ConsensusManager::new(ConsensusConfig::default()));
         let t1 = c.begin(&"n1".to_string(), &[0]).map(|t| t.tx_id);
@@ -967,7 +1426,8 @@ fn coordinator_scenarios(rep: &mut Report, r: &mut Rng, random_cases: u64) {
             rep.case(stream, Some("A"));
         }
     }
-    // --- B: a holder whose lock expired and was taken over is never removed from the graph by commit
+    // --- B (regression of db804a9a, second form): a holder whose lock expired and was taken over must still
+    //     leave the graph at commit.  Frozen clock: lock timeout 40 ms, conflict AT elapsed == 40, take-over at 41.
     {
         let store = TensorStore::new();
         let state = CoordinatorState { pending: HashMap::new(), lock_state: SerializableLockState::new(HashMap::new(), HashMap::new(), 40) };
@@ -975,23 +1435,32 @@ fn coordinator_scenarios(rep: &mut Report, r: &mut Rng, random_cases: u64) {
         data.set("state", TensorValue::Scalar(ScalarValue::Bytes(bitcode::serialize(&state).unwrap_or_default())));
         let _ = store.put("_dtx:coordinator:n1:state".to_string(), data);
         if let Ok(c) = DistributedTxCoordinator::load_from_store("n1", &store, ConsensusManager::new(ConsensusConfig::default()), DistributedTxConfig::default()) {
-            let ids: Vec<u64> = (0..3).filter_map(|_| c.begin(&"n1".to_string(), &[0]).ok().map(|t| t.tx_id)).collect();
-            if ids.len() == 3 && c.lock_manager().default_timeout == Duration::from_millis(40) {
-                let (t1, t3, t2) = (ids[0], ids[1], ids[2]);
+            let ids: Vec<u64> = (0..4).filter_map(|_| c.begin(&"n1".to_string(), &[0]).ok().map(|t| t.tx_id)).collect();
+            if ids.len() == 4 && c.lock_manager().default_timeout == Duration::from_millis(40) {
+                let (t1, t3, t2, t4) = (ids[0], ids[1], ids[2], ids[3]);
+                let base = now_ms();
+                verif_clock::set_now_ms(Some(base));
                 let v1 = c.handle_prepare(&prep(t1, &[1], 0));
                 let ph = c.record_vote(t1, 0, v1.clone());
                 let v3 = c.handle_prepare(&prep(t3, &[1], 1)); // refused: t3 waits for t1
-                std::thread::sleep(Duration::from_millis(70)); // t1's lock expires (timeout 40 ms)
+                verif_clock::set_now_ms(Some(base + 40)); // elapsed == timeout: NOT expired
+                let v4 = c.handle_prepare(&prep(t4, &[1], 3));
+                rep.hit(if matches!(v4, PrepareVote::Conflict { .. }) { "coord.B.elapsed_eq_timeout.conflict" } else { "coord.B.elapsed_eq_timeout.granted" });
+                if !matches!(v4, PrepareVote::Conflict { .. }) {
+                    rep.violation("KeyLock.is_expired/boundary", "coordinator: a prepare at elapsed == timeout was not refused", json!({"scenario": "B", "vote": format!("{v4:?}")}));
+                }
+                verif_clock::set_now_ms(Some(base + 41)); // t1's lock is expired now
                 let v2 = c.handle_prepare(&prep(t2, &[1], 2)); // takes the key over
                 let cm = c.commit(t1);
+                verif_clock::set_now_ms(None);
                 rep.hit("coord.B.run");
                 if matches!(v1, PrepareVote::Yes { .. }) && matches!(v3, PrepareVote::Conflict { .. }) && matches!(v2, PrepareVote::Yes { .. }) && cm.is_ok() {
                     rep.hit("coord.B.takeover_reached");
                     if in_wait_graph(&c, t1, &ids) {
                         rep.violation(
                             "DistributedTxCoordinator.commit/ended_holder_stays_in_wait_graph",
-                            "a committed transaction whose lock had expired and been taken over is still a holder in the coordinator's wait-for graph (release_by_handle_with_wait_cleanup found no lock with its handle, so it skipped the graph cleanup)",
-                            json!({"scenario": "lock timeout 40ms; prepare(t1,[k1])=Yes; prepare(t3,[k1])=Conflict (t3 waits for t1); sleep 70ms; prepare(t2,[k1])=Yes (takes over expired lock); commit(t1)",
+                            "a committed transaction whose lock had expired and been taken over is still a holder in the coordinator's wait-for graph",
+                            json!({"scenario": "lock timeout 40ms (frozen clock); prepare(t1,[k1])=Yes; prepare(t3,[k1])=Conflict (t3 waits for t1); +40ms prepare(t4)=Conflict; +41ms prepare(t2,[k1])=Yes (takes over expired lock); commit(t1)",
                                    "waiting_on_t1": c.wait_graph().waiting_on(t1).len()}),
                         );
                     }
@@ -1000,6 +1469,61 @@ fn coordinator_scenarios(rep: &mut Report, r: &mut Rng, random_cases: u64) {
                 }
                 rep.case(stream, Some("B"));
             }
+        }
+        verif_clock::set_now_ms(None);
+    }
+    // --- C: timeout.  prepare_timeout 20 ms (DistributedTransaction::is_timed_out reads the wall clock, which
+    //     the hook does not cover): t1 holds k1, t2 waits for t1, both time out; cleanup_timeouts must leave
+    //     neither in the graph and no lock behind.
+    {
+        let cfg = DistributedTxConfig { prepare_timeout_ms: 20, ..DistributedTxConfig::default() };
+        let c = DistributedTxCoordinator::new(ConsensusManager::new(ConsensusConfig::default()), cfg);
+        let t1 = c.begin(&"n1".to_string(), &[0]).map(|t| t.tx_id);
+        let t2 = c.begin(&"n1".to_string(), &[0]).map(|t| t.tx_id);
+        if let (Ok(t1), Ok(t2)) = (t1, t2) {
+            let v1 = c.handle_prepare(&prep(t1, &[1], 0));
+            let _ = c.record_vote(t1, 0, v1.clone());
+            let v2 = c.handle_prepare(&prep(t2, &[1], 1));
+            let was_waiting = !c.wait_graph().waiting_for(t2).is_empty();
+            std::thread::sleep(Duration::from_millis(45));
+            let gone = c.cleanup_timeouts();
+            rep.hit("coord.C.run");
+            if matches!(v1, PrepareVote::Yes { .. }) && matches!(v2, PrepareVote::Conflict { .. }) && was_waiting && gone.contains(&t1) && gone.contains(&t2) {
+                rep.hit("coord.C.both_timed_out");
+                for (name, t) in [("t1", t1), ("t2", t2)] {
+                    if in_wait_graph(&c, t, &[t1, t2]) {
+                        rep.violation("DistributedTxCoordinator.cleanup_timeouts/ended_tx_stays_in_wait_graph",
+                            "a timed-out transaction still appears in the coordinator's wait-for graph",
+                            json!({"scenario": "C", "tx": name, "edges": c.wait_graph().edge_count()}));
+                    }
+                    if c.lock_manager().lock_count_for_transaction(t) != 0 {
+                        rep.violation("DistributedTxCoordinator.cleanup_timeouts/locks_remain", "a timed-out transaction still holds locks", json!({"scenario": "C", "tx": name}));
+                    }
+                }
+            } else {
+                rep.note(&format!("coord scenario C not reached: v1={v1:?} v2={v2:?} waiting={was_waiting} timed_out={gone:?}"));
+            }
+            rep.case(stream, Some("C"));
+        }
+    }
+    // --- D (observation, outside the quantifier): a prepare that arrives AFTER its transaction ended.
+    //     handle_prepare is the participant side and does not consult `pending`; the late waiter is back in
+    //     the graph until cleanup_stale_edges / the blocker's end.  The property assumes ids are not reused
+    //     after the end, so this is recorded, not judged.
+    {
+        let c = DistributedTxCoordinator::with_consensus(ConsensusManager::new(ConsensusConfig::default()));
+        let t1 = c.begin(&"n1".to_string(), &[0]).map(|t| t.tx_id);
+        let t2 = c.begin(&"n1".to_string(), &[0]).map(|t| t.tx_id);
+        if let (Ok(t1), Ok(t2)) = (t1, t2) {
+            let v1 = c.handle_prepare(&prep(t1, &[1], 0));
+            let _ = c.record_vote(t1, 0, v1);
+            let ab = c.abort(t2, "early");
+            let late = c.handle_prepare(&prep(t2, &[1], 1));
+            let back = in_wait_graph(&c, t2, &[t1, t2]);
+            rep.hit(if back { "coord.D.late_prepare_reenters_graph" } else { "coord.D.late_prepare_ignored" });
+            rep.observe(json!({"late_prepare_after_abort": {"abort_ok": ab.is_ok(), "vote": format!("{late:?}").chars().take(60).collect::<String>(), "ended_tx_back_in_wait_graph": back,
+                "note": "handle_prepare does not check that the transaction is still pending; excluded by the assumption that transaction ids are not used after the end"}}));
+            let _ = c.commit(t1);
         }
     }
     // --- random: N single-shard transactions over few keys, prepared in random order, then each committed or aborted
@@ -1051,6 +1575,91 @@ fn coordinator_scenarios(rep: &mut Report, r: &mut Rng, random_cases: u64) {
         let key = script.join(";");
         rep.case(stream, Some(&key));
     }
+}
+
+/// One transaction life on the real coordinator: begin, prepare over `keys`, record the vote, then commit
+/// if it is Prepared, else abort.  `between()` runs between the API calls (yield point or nothing).
+/// Returns (tx id, "commit"/"abort"/"gone", ended-tx-still-in-graph?, locks left)
+fn tx_life(c: &DistributedTxCoordinator, keys: &[u64], axis: usize, between: &dyn Fn(&'static str)) -> Option<(u64, &'static str, bool, usize)> {
+    between("coord.begin");
+    let tx = c.begin(&"n1".to_string(), &[0]).ok()?.tx_id;
+    between("coord.handle_prepare");
+    let v = c.handle_prepare(&prep(tx, keys, axis));
+    between("coord.record_vote");
+    let _ = c.record_vote(tx, 0, v);
+    between("coord.end");
+    let how = if c.commit(tx).is_ok() { "commit" } else if c.abort(tx, "hammer").is_ok() { "abort" } else { "gone" };
+    // per-transaction program order: nobody can add this transaction to the graph after its end (it holds no
+    // lock any more), so the check is valid while other threads are still running
+    let g = c.wait_graph();
+    let in_graph = !g.waiting_for(tx).is_empty() || !g.waiting_on(tx).is_empty();
+    Some((tx, how, in_graph, c.lock_manager().lock_count_for_transaction(tx)))
+}
+
+/// 2..6 threads each run several transaction lives on ONE coordinator over 3 keys.
+/// `scheduled`: under `nverif::sched::run_threads` with a yield before every coordinator API call
+/// (deterministic operation-level interleavings; no yield point exists inside the calls);
+/// otherwise free-running OS threads (races inside the calls).  Oracle = property C12, sentence 2.
+fn coordinator_threads(rep: &mut Report, r: &mut Rng, threads: usize, lives: usize, scheduled: bool) {
+    let stream = if scheduled { "sched.coordinator" } else { "threads.coordinator" };
+    // orthogonal_threshold above 1: the semantic-conflict check never fires, only key locks decide
+    let cfg = DistributedTxConfig { orthogonal_threshold: 2.0, ..DistributedTxConfig::default() };
+    let c = Arc::new(DistributedTxCoordinator::new(ConsensusManager::new(ConsensusConfig::default()), cfg));
+    let results: Arc<std::sync::Mutex<Vec<(usize, u64, &'static str, bool, usize, Vec<u64>)>>> = Arc::new(std::sync::Mutex::new(Vec::new()));
+    let plans: Vec<Vec<Vec<u64>>> = (0..threads).map(|_| (0..lives).map(|_| (0..1 + r.below(2)).map(|_| r.below(3)).collect()).collect()).collect();
+    let mk = |t: usize, plan: Vec<Vec<u64>>| {
+        let (c, results) = (c.clone(), results.clone());
+        move || {
+            for (i, keys) in plan.iter().enumerate() {
+                let between: &dyn Fn(&'static str) = if scheduled { &|site| tensor_store::verif::yield_point(site, "") } else { &|_| {} };
+                if let Some((tx, how, in_graph, left)) = tx_life(&c, keys, t * 7 + i, between) {
+                    results.lock().unwrap().push((t, tx, how, in_graph, left, keys.clone()));
+                }
+            }
+        }
+    };
+    let mut trace_sites: Vec<&'static str> = Vec::new();
+    let mut switches = 0;
+    if scheduled {
+        let tasks: Vec<Box<dyn FnOnce() + Send>> = plans.iter().cloned().enumerate().map(|(t, p)| Box::new(mk(t, p)) as Box<dyn FnOnce() + Send>).collect();
+        let mut sr = r.fork("schedule");
+        let trace = nverif::sched::run_threads(tasks, move |_, parked| sr.below(parked.len() as u64) as usize);
+        switches = trace.windows(2).filter(|w| w[0].thread != w[1].thread).count();
+        trace_sites = trace.iter().map(|s| s.site).filter(|s| !s.starts_with("coord.") && *s != "thread.start").collect();
+        rep.hit_n("sched.coord.steps", trace.len() as u64);
+        rep.hit(if trace_sites.is_empty() { "sched.coord.no_yield_inside_calls" } else { "sched.coord.yield_inside_call" });
+    } else {
+        let hs: Vec<_> = plans.iter().cloned().enumerate().map(|(t, p)| std::thread::spawn(mk(t, p))).collect();
+        for h in hs { let _ = h.join(); }
+    }
+    let res = results.lock().unwrap().clone();
+    let script: Vec<String> = res.iter().map(|(t, _, how, _, _, ks)| format!("T{t}:{how}{ks:?}")).collect();
+    let (mut commits, mut aborts) = (0, 0);
+    for (t, tx, how, in_graph, left, ks) in &res {
+        match *how { "commit" => commits += 1, "abort" => aborts += 1, _ => {} }
+        rep.hit(&format!("{stream}.{how}"));
+        if *how != "gone" && *in_graph {
+            rep.violation("DistributedTxCoordinator/ended_tx_in_wait_graph_threads",
+                "a transaction that just ended (commit/abort) on one thread still appears in the coordinator's wait-for graph",
+                json!({"threads": threads, "scheduled": scheduled, "thread": t, "tx": tx, "keys": ks, "how": how, "ends_in_completion_order": script}));
+        }
+        if *how != "gone" && *left != 0 {
+            rep.violation("DistributedTxCoordinator/locks_remain_after_end_threads", "an ended transaction still holds locks", json!({"threads": threads, "scheduled": scheduled, "tx": tx, "how": how}));
+        }
+    }
+    // quiescence: nothing left at all
+    if c.wait_graph().edge_count() != 0 || !c.wait_graph().is_empty() {
+        rep.violation("DistributedTxCoordinator/wait_graph_not_empty_at_quiescence", "every transaction ended but the wait-for graph still has edges",
+            json!({"threads": threads, "scheduled": scheduled, "edges": c.wait_graph().edge_count(), "ends_in_completion_order": script}));
+    }
+    if c.lock_manager().active_lock_count() != 0 {
+        rep.violation("DistributedTxCoordinator/locks_remain_at_quiescence", "every transaction ended but locks remain", json!({"threads": threads, "scheduled": scheduled, "left": c.lock_manager().active_lock_count()}));
+    }
+    if !trace_sites.is_empty() {
+        rep.observe(json!({"coordinator_call_yielded_at": trace_sites}));
+    }
+    let key = format!("{threads}:{}", script.join(";"));
+    rep.case(stream, if commits >= 1 && aborts >= 1 && (!scheduled || switches >= 2) { Some(&key) } else { None });
 }
 
 // ------------------------------------------------------------------ untouched-API real-time stream
@@ -1117,6 +1726,15 @@ fn main() {
         "detect.filtered_by_max_cycle_length", "detect.disabled", "detect.policy.youngest", "detect.policy.oldest",
         "detect.policy.lowest_priority", "detect.policy.most_locks", "tg.lockw.grant", "tg.lockw.conflict", "tg.end_tx",
         "tg.cleanw.removed", "tg.cleanw.none", "malformed.bad-op",
+        "tg.end_tx.was_in_graph", "tg.end_tx.no_handle", "tg.end_tx.handle_loop_alone_leaves_tx_in_graph",
+        "tg.old_sequence.waiter_without_handle.prefix.tx_left_in_graph", "tg.old_sequence.holder_taken_over.prefix.tx_left_in_graph",
+        "tg.old_sequence.waiter_without_handle.current.tx_absent", "tg.old_sequence.holder_taken_over.current.tx_absent",
+        "clock.boundary.elapsed_minus_timeout.minus1", "clock.boundary.elapsed_minus_timeout.zero", "clock.boundary.elapsed_minus_timeout.plus1",
+        "clock.boundary.probe.query", "clock.boundary.probe.lock", "clock.boundary.probe.lockw", "clock.boundary.probe.clean", "clock.boundary.probe.cleanw",
+        "clock.lock.elapsed_eq_timeout", "clock.lock.elapsed_eq_timeout_plus_1", "clock.lock.elapsed_eq_timeout_minus_1",
+        "sched.lm.no_yield_inside_operations", "sched.coord.no_yield_inside_calls", "sched.coordinator.commit", "sched.coordinator.abort",
+        "threads.coordinator.commit", "threads.coordinator.abort", "coord.A.waiter_registered", "coord.B.takeover_reached",
+        "coord.B.elapsed_eq_timeout.conflict", "coord.C.both_timed_out",
     ].iter().map(|s| s.to_string()).collect();
     let mut m = Model::spawn(&args.driver);
     let root = Rng::new(args.seed);
@@ -1148,6 +1766,27 @@ fn main() {
     }
 
     lap("table");
+    // ---- stream 1b: the same generator on the FROZEN millisecond clock (hook): timeouts 0..5 ms, advances of
+    //      0..4 ms, so elapsed == timeout and timeout ± 1 occur constantly; plus the directed boundary matrix
+    let mut r = root.fork("table.clock");
+    let mut failed_clock = 0;
+    for _ in 0..1500 * scale {
+        let n = 4 + r.below(24) as usize;
+        let (to, ops) = gen_table_ops(&mut r, n, true);
+        if !run_table_case_on(&mut m, &mut rep, "table.clock", to, &ops, true, true) {
+            failed_clock += 1;
+            if failed_clock == 1 {
+                let mut scratch = Report::new("shrink");
+                let small = shrink_list(&ops, &mut |cand: &[Op]| !run_table_case_on(&mut m, &mut scratch, "shrink", to, cand, false, true));
+                rep.sample(json!({"stream": "table.clock", "shrunk_disagreement": small.iter().map(op_text).collect::<Vec<_>>(), "timeout_ms": to}));
+                for v in scratch.violations.iter().take(3) { rep.violations.push(v.clone()); }
+            }
+            if failed_clock >= 20 { break; }
+        }
+    }
+    clock_boundary(&mut m, &mut rep);
+    verif_clock::set_now_ms(None);
+    lap("table.clock");
     // ---- stream 2: malformed protocol lines must be refused and leave the model state alone
     let mut r = root.fork("malformed");
     {
@@ -1204,21 +1843,50 @@ fn main() {
         wait_variant_case(&mut m, &mut rep, &mut r);
     }
 
+    old_sequence_regression(&mut m, &mut rep);
+    verif_clock::set_now_ms(None);
     lap("table+graph");
+    // ---- stream 6b: real threads under the deterministic scheduler, LockManager operations
+    let mut r = root.fork("sched.lm");
+    for _ in 0..120 * scale {
+        sched_lockmanager_case(&mut m, &mut rep, &mut r);
+    }
+    verif_clock::set_now_ms(None);
+    lap("sched.lockmanager");
     // ---- stream 7: real threads
     let r = root.fork("threads");
     for (i, t) in [2usize, 3, 4, 6].iter().enumerate() {
         thread_hammer(&mut rep, &r.fork(&format!("run{i}")), *t, if args.thorough { 60_000 } else { 8_000 }, 2 + i);
     }
 
+    let r = root.fork("graph_hammer");
+    for (i, t) in [2usize, 4].iter().enumerate() {
+        graph_thread_hammer(&mut rep, &r.fork(&format!("run{i}")), *t, if args.thorough { 400 } else { 60 });
+    }
+    graph_pair_race(&mut rep, if args.thorough { 200_000 } else { 20_000 });
     lap("threads");
 
     // ---- stream 8: the real coordinator (oracle only): ended transactions vs locks and wait-for graph
     let mut r = root.fork("coord");
     coordinator_scenarios(&mut rep, &mut r, 200 * scale);
     lap("coord");
-    rep.note("lock-table time is a virtual tick clock realised through the public serialize/restore path (acquired_at_ms shifted); the exact elapsed==timeout millisecond boundary of KeyLock::is_expired is not controllable without a clock hook (proposed/C12-clock.diff)");
+    // ---- stream 9: 2..6 threads of whole transaction lives on one coordinator — scheduled (deterministic,
+    //      operation-level) and free-running (OS threads)
+    let mut r = root.fork("coord.threads");
+    for i in 0..40 * scale {
+        let t = 2 + (i % 5) as usize;
+        coordinator_threads(&mut rep, &mut r, t, 3, true);
+    }
+    lap("sched.coordinator");
+    for i in 0..(if args.thorough { 300 } else { 40 }) {
+        let t = 2 + (i % 5) as usize;
+        coordinator_threads(&mut rep, &mut r, t, if args.thorough { 60 } else { 25 }, false);
+    }
+    lap("threads.coordinator");
+    rep.note("lock-table time: (a) table.ops — a virtual tick clock realised through the public serialize/restore path (acquired_at_ms shifted) on the wall clock; (b) table.clock*, sched.*, coord B — the frozen millisecond clock of the hook tensor_chain::distributed_tx::verif_clock (/repo 654184dd): KeyLock::is_expired is `elapsed > timeout` (not expired at elapsed == timeout), mirrored by the model and compared at timeout-1 / timeout / timeout+1 through every expiry-dependent operation");
+    rep.note("DistributedTransaction::is_timed_out (coordinator-level transaction timeout) reads SystemTime directly and is not covered by the clock hook; scenario C sleeps 45 ms against a 20 ms prepare timeout");
     rep.note("iteration order of the private HashMap/HashSet of WaitForGraph is read from its Debug output and passed to the model as an explicit input");
-    rep.note("threads: real OS threads, no deterministic scheduler; each LockManager op is one critical section (both RwLocks taken together), so the sequential theorems apply per linearisation; the monitor is an oracle only");
+    rep.note("threads: LockManager and DistributedTxCoordinator never call TensorStore, so nverif::sched finds no yield point inside their operations (distribution keys sched.lm.no_yield_inside_operations / sched.coord.no_yield_inside_calls); sched.* therefore yields BETWEEN operations: deterministic operation-level interleavings of real threads whose linearisation is replayed on the model (sched.lockmanager) or judged by the property oracle (sched.coordinator). Every mutating LockManager operation takes locks.write() then tx_locks.write() before its first read and releases both after its last write; readers (is_locked, lock_holder, keys_for_transaction, lock_count_for_transaction) take one lock, to_serializable both in the same order: each operation is one critical section, so the sequential theorems apply per linearisation. Races inside operations are left to the OS-thread hammers threads.hammer (LockManager) and threads.coordinator (whole transaction lives).");
+    rep.note("WaitForGraph operations are NOT single critical sections (edges, reverse_edges, wait_started, priorities are separate RwLocks taken one after the other). In the coordinator add_wait runs only inside the lock-table critical section and a transaction's calls are ordered; threads.graph_hammer drives the graph without that discipline and reports reverse-index divergence at quiescence as an observation");
     rep.write(&args.out);
 }
